@@ -22,7 +22,8 @@ CHECK_DEADLOCK FALSE
 
 
 def tla_str(c):
-    return json.dumps(c)
+    # (escapes are not processed in a configuration file: the characters that need one travel by name, see Reader.tla Ch)
+    return json.dumps({"\n": "NL", "\"": "DQ", "\\": "BS"}.get(c, c))
 
 
 def unescape(body):
